@@ -1,4 +1,5 @@
 import Whv.Lemmas.AlphUtil
+import Whv.Lemmas.AlphWatch
 import Whv.Gen.C11
 /-!
 # C11 — Alephium event fields map faithfully to the attested message
@@ -716,5 +717,26 @@ example : parseAttestToken (be 1 2 ++ List.replicate 32 7 ++ be 2 255 ++ be 1 18
 example : (parseAttestToken (List.replicate 33 1 ++ [0, 255] ++ List.replicate 65 0)).toOption.isSome = true := by decide
 -- c11_contract_id_roundtrip_btcutil: a 32-byte id
 example : (List.replicate 32 (0 : UInt8)).length = 32 := by decide
+
+/-! ## the block timestamp is the event's own block's
+
+`toMessagePublication` takes the header as an argument; which header the watcher passes is part of "decoded into a message
+with exactly those values, the block timestamp, …".  In the model of the watcher (`Whv/Model/AlphWatch.lean`, tied to the
+real `handleConfirmedEvents` / `handleObsvRequest` by the `alphwatch` driver) a confirmed batch is a list of (event, header of
+its block) pairs, and every message is published under the header it is paired with. -/
+
+/-- **Every message of a confirmed batch carries its own block's timestamp and its own consistency level**, in whatever
+order the batch arrives and whatever events of other senders it contains. -/
+theorem c11_batch_block_timestamp (cfg : Alph.Cfg) (conf : List (Alph.Unconf × Alph.Header)) :
+    ∀ p ∈ (Alph.handleConfirmed cfg conf).1.map Alph.pubOf,
+      ∃ c ∈ conf, p = Alph.toPub c.1.ev.tx c.1.msg c.2 ∧ p.ts = c.2.ts ∧ p.cl = c.1.msg.cl ∧ p.seq = c.1.msg.seq ∧ p.emitterChain = 255 := by
+  intro p hp
+  obtain ⟨c, hc, rfl⟩ := List.mem_map.1 hp
+  exact ⟨c, (Alph.handleConfirmed_mem cfg conf c hc).1, rfl, rfl, rfl, rfl, rfl⟩
+
+example : (Alph.handleConfirmed ⟨true, [7], "gov"⟩
+    [(⟨⟨0, "b1", "t1", 0, "-", none⟩, ⟨[7], 2, 5, 9, 1, [1]⟩⟩, ⟨100, 0⟩), (⟨⟨1, "b0", "t0", 0, "-", none⟩, ⟨[8], 2, 5, 1, 1, [1]⟩⟩, ⟨90, 7⟩),
+     (⟨⟨2, "b2", "t2", 0, "-", none⟩, ⟨[7], 2, 6, 8, 3, [1]⟩⟩, ⟨101, 16000⟩)]).1.map (fun c => ((Alph.pubOf c).seq, (Alph.pubOf c).ts, (Alph.pubOf c).cl))
+    = [(9, 0, 1), (8, 16000, 3)] := by decide
 
 end Whv.C11
